@@ -10,4 +10,6 @@ if ! git -C "$WT" apply "$P"; then echo "seedtest $P: patch does not apply"; git
 cd /verif && VERIF_REPO="$WT" timeout 3000 bin/check "$ID" --tier "$TIER" > "out/seed-$ID-$$.log" 2>&1; rc=$?
 git -C /repo worktree remove --force "$WT"
 echo "seedtest $P on $ID: exit=$rc"; grep -E "^VIOLATION|signature|INFRA|KNOWN" "out/seed-$ID-$$.log" | head -6
+
+find /verif/out/bin -name "*-alt*" -mmin +90 -delete 2>/dev/null
 exit 0
